@@ -52,6 +52,14 @@ def obs_encode(P, t, data, ns, pid, binary):
     try:
         p = P(t, data=data, namespace=ns, id=pid, binary=binary)
         enc = p.encode()
+        # encode() is a function of the packet's fields (the model's encode is pure): a packet object encoded
+        # again - re-sent, forwarded, emitted to several recipients - must produce the same frames; what is
+        # judged is the LAST of three encodings of the same object
+        for _ in range(2):
+            again = p.encode()
+            if again != enc:
+                enc = again
+                break
     except BaseException as e:
         return None, '(Err %s)' % exn_name(e)
     if isinstance(enc, list):
